@@ -262,6 +262,11 @@ def r10_sparse_tokens(ctx, rule="C12.R10"):
         st = enclosing_stmt(c)
         ok = ok or (isinstance(st, ast.If) and isinstance(st.test, ast.UnaryOp) and isinstance(st.test.op, ast.Not) and any(isinstance(x, ast.Raise) for x in st.body))
     ctx.ob(rule, RDR, "ArffLineReader._sparse", fm[0] if fm else fn, "a row with quotes that the tokenising pattern does not cover completely is rejected", ok, stmt="quoted sparse row validated")
+    # unquoting removes exactly the delimiting pair: a slice [1:-1]; str.strip(<quote>) removes RUNS (a value ending in an escaped quote loses it and keeps the backslash)
+    strips = [c for f_ in ctx.model.cls(RDR, "ArffLineReader").methods.values() for c in ast.walk(f_) if isinstance(c, ast.Call) and call_tail(c) in ("strip", "lstrip", "rstrip") and c.args and
+              (const_str(c.args[0]) in ("'", '"', "'\"", "\"'") or (isinstance(c.args[0], ast.Subscript) and unparse(c.args[0].slice) in ("0", "-1")) or "quote" in unparse(c.args[0]).lower())]
+    ctx.ob(rule, RDR, "ArffLineReader", (strips or [fn])[0], "quoted values are unquoted by cutting exactly one character at each end, never by str.strip on the quote character", not strips,
+           detail={"strip calls": [unparse(c) for c in strips]}, stmt="unquote by slice")
 
 
 def r11_declared_level_order(ctx, rule="C12.R11"):
@@ -549,6 +554,7 @@ def r7_csv_dialect(ctx):
 
 
 CONTROLS = [
+    ("sparse values unquoted with strip", RDR, M.replace_expr("ArffLineReader._sparse", "v[1:-1]", "v.strip(v[0])"), "C12.R10"),
     ("libsvm lines split on single blanks", RDR, M.replace_expr("LibsvmReader.filter", "line.split()", "line.strip().split(' ')"), "C12.R12"),
     ("gzip bodies end with their first member", SRC, M.replace_stmt("HttpSource._byte_it_", lambda st: isinstance(st, ast.FunctionDef) and st.name == "decomp", "decomp = zlib.decompressobj(16 + zlib.MAX_WBITS).decompress"), "C12.R1"),
     ("sparse nominal attributes always get a second '0'", RDR, M.replace_stmt("ArffAttrReader._encoder", M.text_has("not in categories"), "categories = ['0'] + categories"), "C12.R11"),
